@@ -80,9 +80,9 @@ func genC12(seed uint64, tier string) C12Cfg {
 			ph.Topics = []string{lastFailedTopic}
 			lastFailedTopic = ""
 		case r.Bool(0.16):
-			ph.Kind = pickStr(r, []string{"kg-ok", "kg-ok", "kg-missing", "kg-cancel"})
+			ph.Kind = pickStr(r, []string{"kg-ok", "kg-ok", "kg-missing", "kg-cancel", "kg-overlap"})
 			ph.Missing = r.Intn(n)
-			kgFailed = ph.Kind != "kg-ok"
+			kgFailed = ph.Kind != "kg-ok" && ph.Kind != "kg-overlap"
 		case r.Bool(0.2) && len(pool) >= 2:
 			ph.Kind = "sg-concurrent"
 			p := r.Perm(len(pool))
@@ -201,7 +201,7 @@ func runC12(t *testing.T, spec RunSpec) *RunResult {
 					}
 					return cc.call
 				})
-				if role == "overlap" {
+				if strings.HasPrefix(role, "overlap") {
 					ps.Weight = 0.3
 				}
 				if role == "extra" {
@@ -213,7 +213,7 @@ func runC12(t *testing.T, spec RunSpec) *RunResult {
 			}
 			var members []uint16
 			switch ph.Kind {
-			case "kg-ok", "kg-missing", "kg-cancel":
+			case "kg-ok", "kg-missing", "kg-cancel", "kg-overlap":
 				members = append(members, cfg.Deploy.IDs...)
 				for i, id := range cfg.Deploy.IDs {
 					if ph.Kind == "kg-missing" && i == ph.Missing%cfg.N {
@@ -230,6 +230,13 @@ func runC12(t *testing.T, spec RunSpec) *RunResult {
 						}
 					}
 					add("DKG", id, exp, role, deadline, true)
+					if ph.Kind == "kg-overlap" && i == ph.Missing%cfg.N {
+						// the same node calls KeyGen a second and, in half of the cases, a third time while the first is running
+						add("DKG", id, "err", "overlap", deadline, true)
+						if ph.CancelAt%2 == 0 {
+							add("DKG", id, "err", "overlap2", deadline, true)
+						}
+					}
 				}
 			default:
 				for ti, topic := range ph.Topics {
@@ -269,6 +276,9 @@ func runC12(t *testing.T, spec RunSpec) *RunResult {
 						if ph.Kind == "sg-overlap" && i == ph.Missing%len(signers) && ti == 0 {
 							// the same node calls Sign on the same topic a second time while the first is running
 							add(topic, id, "err", "overlap", deadline, false)
+							if ph.CancelAt%2 == 0 {
+								add(topic, id, "err", "overlap2", deadline, false) // and a third time
+							}
 						}
 					}
 				}
@@ -316,10 +326,10 @@ func runC12(t *testing.T, spec RunSpec) *RunResult {
 				// the overlapping call may only start once the first call of that node is running
 				var out []netsim.Proposal
 				for _, p := range ps {
-					if strings.Contains(p.Key, ":start:overlap:") {
+					if strings.Contains(p.Key, ":start:overlap") {
 						firstRunning, firstDone := false, false
 						for _, c := range calls {
-							if c.role != "overlap" && c.call != nil && c.node == nodeOfKey(p.Key) {
+							if !strings.HasPrefix(c.role, "overlap") && c.call != nil && c.node == nodeOfKey(p.Key) {
 								firstRunning = true
 								firstDone = w.CallDone(c.call)
 							}
@@ -329,7 +339,7 @@ func runC12(t *testing.T, spec RunSpec) *RunResult {
 							// sequential re-use of the topic, which is another scenario
 							st.drop(p.Key)
 							for _, c := range calls {
-								if c.role == "overlap" {
+								if strings.HasPrefix(c.role, "overlap") && c.call == nil {
 									c.role = "dropped"
 								}
 							}
@@ -383,11 +393,11 @@ func runC12(t *testing.T, spec RunSpec) *RunResult {
 				if c.expect != "any" && got != c.expect {
 					what := "unexpected-failure"
 					switch {
-					case c.role == "overlap":
+					case strings.HasPrefix(c.role, "overlap"):
 						what = "overlap-admitted"
 					case c.expect == "err":
 						what = "unexpected-success"
-					case ph.Kind == "sg-overlap":
+					case ph.Kind == "sg-overlap" || ph.Kind == "kg-overlap":
 						what = "overlap-disturbed-first"
 					case ph.Kind == "sg-concurrent":
 						what = "concurrent-interference"
@@ -428,7 +438,7 @@ func runC12(t *testing.T, spec RunSpec) *RunResult {
 					d.Parties[c.node].SetStoredData(c.call.Out)
 				}
 			}
-			if ph.Kind != "sg-ok" && ph.Kind != "kg-ok" && ph.Kind != "sg-concurrent" {
+			if ph.Kind != "sg-ok" && ph.Kind != "kg-ok" && ph.Kind != "sg-concurrent" && ph.Kind != "kg-overlap" {
 				residueSeen = true
 			}
 		}
@@ -565,7 +575,7 @@ func c12Handoffs(w *netsim.World, d *Deployment, calls []*c12Call, phaseStart []
 		}
 		// lifetime: the call of this node, phase and topic must not have returned earlier
 		for _, c := range calls {
-			if c.node != e.Node || c.phase != px || c.call == nil || c.role == "overlap" {
+			if c.node != e.Node || c.phase != px || c.call == nil || strings.HasPrefix(c.role, "overlap") {
 				continue
 			}
 			tx, known := topicOf[x]
